@@ -79,3 +79,47 @@ func (e *Env) MetaFull(on bool) error {
 	e.metaFull = true
 	return nil
 }
+
+// ---------------------------------------------------------------------------
+// the same facility for checks that do not use Env
+
+// MountTmpfs mounts a tmpfs of sizeMB over dir (created if needed).
+func MountTmpfs(dir string, sizeMB int) error {
+	if err := os.MkdirAll(dir, 0o755); err != nil {
+		return err
+	}
+	if err := syscall.Mount("tmpfs", dir, "tmpfs", 0, fmt.Sprintf("size=%dm,mode=0755", sizeMB)); err != nil {
+		return fmt.Errorf("mount tmpfs on %s: %w", dir, err)
+	}
+	return nil
+}
+
+// UnmountTmpfs lazily detaches what MountTmpfs mounted.
+func UnmountTmpfs(dir string) { _ = syscall.Unmount(dir, syscall.MNT_DETACH) }
+
+// FillFS writes a ballast file until the file system holding dir is full.
+func FillFS(dir string) error {
+	f, err := os.OpenFile(filepath.Join(dir, ".ballast"), os.O_CREATE|os.O_WRONLY|os.O_APPEND, 0o600)
+	if err != nil {
+		return err
+	}
+	defer f.Close()
+	chunk := make([]byte, 1<<20)
+	for len(chunk) > 0 {
+		if _, err := f.Write(chunk); err == nil {
+			continue
+		} else if !errors.Is(err, syscall.ENOSPC) {
+			return err
+		}
+		chunk = chunk[:len(chunk)/2]
+	}
+	return nil
+}
+
+// FreeFS removes the ballast.
+func FreeFS(dir string) error {
+	if err := os.Remove(filepath.Join(dir, ".ballast")); err != nil && !os.IsNotExist(err) {
+		return err
+	}
+	return nil
+}
